@@ -55,10 +55,10 @@ var harmless = []string{"cache_size", "busy_timeout", "foreign_keys", "temp_stor
 
 var values = map[string][]string{
 	"journal_mode":        {"DELETE", "delete", "'delete'", `"DELETE"`, "TRUNCATE", "PERSIST", "MEMORY", "OFF", "WAL"},
-	"wal_autocheckpoint":  {"1000", "1", "'500'", "+7", "1000.0"},
+	"wal_autocheckpoint":  {"500", "1000", "1", "'500'", "+7", "1000.0"},
 	"wal_checkpoint":      {"TRUNCATE", "PASSIVE", "FULL", "RESTART", "truncate", "'TRUNCATE'"},
 	"synchronous":         {"2", "1", "3", "NORMAL", "FULL", "EXTRA", "'full'", "ON", "normal"},
-	"query_only":          {"1", "ON", "TRUE", "true", "yes", "'on'"},
+	"query_only":          {"1", "ON", "TRUE", "true", "yes", "'on'", "0", "OFF", "false"},
 	"cache_size":          {"-4000", "2000"},
 	"busy_timeout":        {"1000", "50"},
 	"foreign_keys":        {"ON", "0"},
@@ -310,7 +310,7 @@ func genText(r *rand.Rand) *tspec {
 // systematic: every protected pragma x every single class value, plus plain.
 func systematic() []*tspec {
 	var out []*tspec
-	for _, p := range append(append([]string{}, protected...), harmless[0]) {
+	for _, p := range protected {
 		base := tspec{Pragma: p}
 		add := func(f func(t *tspec)) {
 			for _, syn := range []string{"", "call"} {
@@ -318,6 +318,12 @@ func systematic() []*tspec {
 				t.Syntax = syn
 				f(&t)
 				out = append(out, &t)
+				if p == "query_only" && t.Val == 0 {
+					// the read-only pool has query_only on: the dangerous value there is 0
+					off := t
+					off.Val = 6
+					out = append(out, &off)
+				}
 			}
 		}
 		add(func(t *tspec) {})
@@ -630,7 +636,7 @@ func (h *harness) send(entry, text string, t *tspec) (*sendResult, error) {
 				changedSetting = true
 			}
 		}
-		if changedSetting && !h.restore(entry, t, before) {
+		if changedSetting && !h.restore(t, before, after) {
 			h.restart("settings changed by " + fmt.Sprintf("%q", text) + " and could not be put back")
 		}
 	}
@@ -638,9 +644,10 @@ func (h *harness) send(entry, text string, t *tspec) (*sendResult, error) {
 }
 
 // restore puts the changed setting back by sending the same form of text with
-// the original value; it reports whether the node is in its previous state
+// the original value (read-write side through Execute, read-only side through
+// Query level none); it reports whether the node is in its previous state
 // (apart from the main file, which a checkpoint has changed for good).
-func (h *harness) restore(entry string, t *tspec, want nodeState) bool {
+func (h *harness) restore(t *tspec, want, got nodeState) bool {
 	if t == nil || t.Syntax == "read" {
 		return false
 	}
@@ -649,25 +656,31 @@ func (h *harness) restore(entry string, t *tspec, want nodeState) bool {
 	if !ok {
 		return false
 	}
-	orig := want.RW[i]
-	if strings.HasPrefix(entry, "query") {
-		orig = want.RO[i]
-	}
 	rt := *t
-	rt.Raw = orig
 	rt.Pos, rt.Suffix = "", ""
 	if t.Pos != "" {
 		rt.Pos = "second"
 	}
 	var r nodeResp
-	if err := h.np.p.Call(nodeReq{Op: "send", Entry: entry, SQL: rt.text()}, &r, 60*time.Second); err != nil || r.Fatal != "" || r.State.Err != "" {
+	try := func(entry, orig string) bool {
+		rt.Raw = orig
+		h.c.Count("restores_attempted", 1)
+		if err := h.np.p.Call(nodeReq{Op: "send", Entry: entry, SQL: rt.text()}, &r, 60*time.Second); err != nil || r.Fatal != "" || r.State.Err != "" {
+			return false
+		}
+		h.np.state = r.State
+		return true
+	}
+	if !strings.EqualFold(want.RW[i], got.RW[i]) && !try("execute", want.RW[i]) {
 		return false
 	}
-	h.c.Count("restores_attempted", 1)
-	h.np.state = r.State
-	cmp := r.State
+	if !strings.EqualFold(want.RO[i], got.RO[i]) && !try("query-none", want.RO[i]) {
+		return false
+	}
+	cmp := h.np.state
 	cmp.Hash = want.Hash
-	if len(diffState(want, cmp)) != 0 {
+	if d := diffState(want, cmp); len(d) != 0 {
+		h.c.Logf("restore after %q incomplete: %v", t.text(), d)
 		return false
 	}
 	h.c.Count("restores_succeeded", 1)
@@ -707,7 +720,7 @@ func run(c *vf.Ctx) {
 
 	specs := systematic()
 	c.Extra("systematic_single_variation_cases", len(specs))
-	n := c.N(900, 9000)
+	n := c.N(760, 9000)
 	if v := os.Getenv("C15_N"); v != "" { // development only
 		fmt.Sscanf(v, "%d", &n)
 	}
@@ -826,6 +839,7 @@ func run(c *vf.Ctx) {
 			c.Logf("case %d/%d (node restarts %d)", i+1, len(specs), h.restarts)
 		}
 	}
+	journalFresh(c, h, sc)
 	c.Count("node_restarts", int64(h.restarts))
 	var bad []string
 	for k := range singleBad {
@@ -834,6 +848,105 @@ func run(c *vf.Ctx) {
 	sort.Strings(bad)
 	c.Extra("violating_single_classes", bad)
 	c.Require(int64(n/2), n/10)
+}
+
+// journalFresh: SQLite refuses to leave WAL mode while another connection has
+// the database open, and every settings read-back opens a connection of the
+// read-only pool. rqlite itself opens that pool lazily and closes idle
+// connections after 30 s, so the journal-mode texts are also sent to a node
+// whose read-only pool has never been used; settings are read only afterwards.
+func journalFresh(c *vf.Ctx, h *harness, sc *scratch) {
+	if h.np != nil {
+		h.np.stop()
+		os.RemoveAll(h.np.dir)
+		h.np = nil
+	}
+	var specs []*tspec
+	base := tspec{Pragma: "journal_mode"}
+	mk := func(f func(t *tspec)) {
+		t := base
+		f(&t)
+		specs = append(specs, &t)
+	}
+	mk(func(t *tspec) {})
+	mk(func(t *tspec) { t.Syntax = "call" })
+	mk(func(t *tspec) { t.Prefix = "block-comment" })
+	mk(func(t *tspec) { t.Prefix = "line-comment"; t.Val = 4 })
+	mk(func(t *tspec) { t.Prefix = "semi" })
+	mk(func(t *tspec) { t.Pos = "second" })
+	mk(func(t *tspec) { t.Pos = "after-insert"; t.Val = 5 })
+	mk(func(t *tspec) { t.Schema = "dq" })
+	mk(func(t *tspec) { t.Schema = "main"; t.DotSp = true })
+	mk(func(t *tspec) { t.NameQ = "dq" })
+	mk(func(t *tspec) { t.Inline = "after-kw" })
+	mk(func(t *tspec) { t.Explain = true })
+	mk(func(t *tspec) { t.Schema = "main"; t.KwCase = 1; t.NmCase = 3 })
+	if !c.Quick() {
+		for v := 1; v < 8; v++ {
+			v := v
+			mk(func(t *tspec) { t.Syntax = "call"; t.Val = v })
+			mk(func(t *tspec) { t.Prefix = "block-comment"; t.Val = v })
+		}
+	}
+	for i, t := range specs {
+		text := t.text()
+		h.nodes++
+		dir := filepath.Join(h.base, fmt.Sprintf("node%d", h.nodes))
+		os.MkdirAll(dir, 0755)
+		p, err := vf.StartWorker(false, "c15node", []string{dir}, nil, filepath.Join(h.base, fmt.Sprintf("node%d.log", h.nodes)))
+		if err != nil {
+			c.Inconclusive("node unavailable")
+			continue
+		}
+		entry := "execute"
+		rec := &caseRec{N: i, Spec: t, Text: text, Truth: sc.evaluate(text), Guard: rdb.IsBreakingPragma(text)}
+		var r1, r2 nodeResp
+		err1 := p.Call(nodeReq{Op: "send", Entry: entry, SQL: text, NoState: true}, &r1, 90*time.Second)
+		err2 := p.Call(nodeReq{Op: "state"}, &r2, 60*time.Second)
+		p.Kill()
+		os.RemoveAll(dir)
+		c.Eval(1)
+		c.Count("fresh_node_journal_mode_cases", 1)
+		if len(rec.Truth.Changed) > 0 {
+			c.Nontrivial("fresh:" + text)
+		}
+		sr := &sendResult{Entry: entry, Accepted: r1.Accepted, Err: r1.Err, StmtErr: r1.StmtErr}
+		rec.Sends = []*sendResult{sr}
+		if err1 != nil || r1.Fatal != "" {
+			c.Inconclusive("node unavailable")
+			continue
+		}
+		if r2.State.ROErr != "" {
+			c.Count("fresh_node_ro_pool_unusable_afterwards", 1)
+		}
+		if err2 != nil || r2.Fatal != "" || r2.State.Err != "" {
+			sr.Broken = fmt.Sprintf("settings unreadable afterwards: %v %s %s", err2, r2.Fatal, r2.State.Err)
+			c.Violation("node-broken:journal_mode:"+strings.Join(t.classes(), "+"),
+				fmt.Sprintf("after %s of %q on a fresh node the node could not be used: %s", entry, text, sr.Broken), rec)
+			continue
+		}
+		if !strings.EqualFold(r2.State.RW[0], "wal") {
+			sr.Changed = []string{"rw.journal_mode wal->" + r2.State.RW[0]}
+			class := "plain@" + entry
+			for _, cl := range t.classes() {
+				// a bare schema prefix is covered by the guard; it is never the cause here
+				if class == "plain@"+entry || class == "schema-prefix" {
+					class = cl
+				}
+			}
+			c.Violation("bypass:journal_mode:"+class,
+				fmt.Sprintf("%q via %s on a node whose read-only pool is idle was accepted=%v and left the read-write connection in journal mode %s (read-only pool afterwards: %s)", text, entry, r1.Accepted, r2.State.RW[0], orOK(r2.State.ROErr)), rec)
+			continue
+		}
+		c.Held(1)
+	}
+}
+
+func orOK(s string) string {
+	if s == "" {
+		return "usable"
+	}
+	return s
 }
 
 func replay(c *vf.Ctx, h *harness, sc *scratch) {
